@@ -8,7 +8,7 @@
  * hash_log.h); a write to the context inside a replaced leaf is excluded by that leaf's assigns clause,
  * which does not mention the context. */
 #include "hash_log.h"
-#include "assumed.h"
+#include "assumed_C03.h"   /* includes assumed.h; contracts of ge_set_xo_var / ge_is_valid_var for the parser */
 #include "src/secp256k1.c"
 #include "post.h"
 
@@ -24,7 +24,10 @@ void h_frame_ecdsa_verify(void) {
     CTX_SETUP(c1);
     OBJ(secp256k1_ecdsa_signature, sig); OBJ(secp256k1_pubkey, pk);
     INPUT_ARR(unsigned char, fv_msg, 32); INPUT(_Bool, has_msg);
-    int ret = secp256k1_ecdsa_verify(&c1, p_sig, has_msg ? fv_msg : NULL, p_pk);
+    secp256k1_scalar r, s; int ret;
+    memcpy(&r, &sig.data[0], 32); memcpy(&s, &sig.data[32], 32);
+    __CPROVER_assume(scalar_ok(&r) && scalar_ok(&s));   /* representation invariant of a signature object (established by every parser) */
+    ret = secp256k1_ecdsa_verify(&c1, p_sig, has_msg ? fv_msg : NULL, p_pk);
     CTX_FRAME(c1, "C20 frames ecdsa_verify: the context object is not written");
     __CPROVER_assert(ret == 0 || ret == 1, "C20 frames ecdsa_verify: returns 0 or 1");
     if (ret == 1) REACH("ecdsa_verify accepts");
